@@ -330,6 +330,9 @@ var preTrees = []fsx.Tree{
 	{{Path: "a", Kind: "dir", Mode: 0755}, {Path: "a/b", Kind: "file", Content: "PRE:a/b", Mode: 0444, Sec: 1111111112}},
 	{{Path: "d", Kind: "dir", Mode: 0500, Sec: 1111111113}, {Path: "l", Kind: "file", Content: "PRE:l", Mode: 0400}},
 	{{Path: "m", Kind: "dir", Mode: 0755}, {Path: "m/a", Kind: "dir", Mode: 0755}, {Path: "b", Kind: "file", Content: "PRE:b", Mode: 0600}},
+	// names inside dst that are symlinks to places outside of it (left by whoever used the directory before)
+	{{Path: "d", Kind: "symlink", Target: "../outside/d"}, {Path: "a", Kind: "symlink", Target: "../outside"}, {Path: "l", Kind: "symlink", Target: "../outside/f"},
+		{Path: "b", Kind: "symlink", Target: "../outside/not-there"}, {Path: "m", Kind: "dir", Mode: 0755}, {Path: "m/a", Kind: "symlink", Target: "../../dst-evil"}},
 	// names inside dst that are second names (hard links) of files outside of it
 	{{Path: "a", Kind: "hardlink", Target: "../outside/f"}, {Path: "d", Kind: "dir", Mode: 0755}, {Path: "d/b", Kind: "hardlink", Target: "../dst-evil/x"}, {Path: "l", Kind: "hardlink", Target: "../a"}},
 }
@@ -505,6 +508,10 @@ func scenario(t *rapid.T, rest []tarx.Entry) (entries []tarx.Entry, allowHint st
 		tail := []string{"/../../outside/f", "/../../outside/d/g", "/../../outside/f", "/../../dst-evil/x"}[v]
 		// read as text the target is <parent of dst>/outside/...: the first ".." only undoes the link name
 		plant = []tarx.Entry{ent(a, "symlink", "."), ent(b, "symlink", a+tail)}
+		if rapid.IntRange(0, 2).Draw(t, "abs10") == 0 {
+			// the same with an absolute target that runs through the link
+			plant[1].Link = "{DST}/" + a + tail
+		}
 		if rapid.Bool().Draw(t, "honest10") {
 			plant = append(plant, ent(seg("c")+"3", "symlink", strings.TrimPrefix(tail, "/../")))
 		}
